@@ -29,6 +29,6 @@ def attrs(probs, spec, opts, cell, res):
 
 
 def run(chk, orch):
-    sweep.run_sweep(chk, orch, "gtf", make_wl, n_quick=16, n_round=40, attr_fn=attrs,
+    sweep.run_sweep(chk, orch, "gtf", make_wl, n_quick=20, n_round=40, crash_share=0.4, attr_fn=attrs,
                     what="exon order/overlap/bounds, transcript and gene records once and consistent, reference ids => reference "
                          "structure, extended = reference + novel(models)")
